@@ -64,7 +64,7 @@ def run_proofreader_options(tex, language, disable, enable,
                             extr=cmdline.extract, unkn=cmdline.list_unknown,
                             seqs=cmdline.simple_equations,
                             dcls=cmdline.documentclass, pack=cmdline.packages,
-                            nosp=cmdline.no_specials)
+                            nosp=cmdline.no_specials, ienc=cmdline.encoding)
 
     if cmdline.plain_input:
         plain_map = {language: [(tex, list(range(1, len(tex) + 1)))]}
